@@ -24,7 +24,7 @@ HEADER = "from guppylang import guppy\nfrom guppylang.std.builtins import array\
     "@guppy.declare\ndef s0() -> S: ...\n"
     "from collections.abc import Callable\n@guppy.declare\ndef p0() -> Callable[[int], int]: ...\n@guppy.declare\ndef p1() -> Callable[[int, int], int]: ...\n")
 
-def py_traces(expr):
+def py_traces(expr, stmt=False):
     """all Python evaluation traces of `expr` (atoms b_i()/n_i() record themselves)"""
     atoms = sorted(set(__import__("re").findall(r"\b([bnsp]\d)\(\)", expr)))
     doms = [([True, False] if a[0] == "b" else [0, 1, 2] if a[0] == "n" else ["S"] if a[0] == "s" else ["F"]) for a in atoms]
@@ -39,9 +39,14 @@ def py_traces(expr):
         env["add3"] = lambda x, y, z: (trace.append("add3"), x + y + z)[1]
         class ML(list):
             def __getitem__(self, i): return list.__getitem__(self, i % len(self))
+            def __setitem__(self, i, v): list.__setitem__(self, i % len(self), v)
         env["array"] = lambda *xs: ML(xs)
         env["use_b"] = env["use_n"] = lambda x: None
-        eval(expr, env)
+        if stmt:
+            env["xs"] = ML([0, 0, 0]); env["m"] = ML([ML([0, 0, 0]), ML([0, 0, 0])])
+            exec(expr, env)
+        else:
+            eval(expr, env)
         out.add(tuple(trace))
     return out
 
@@ -200,7 +205,10 @@ def hugr_traces(hugr, fname):
 def compile_all(exprs):
     src = [HEADER]
     for i, (kind, ex) in enumerate(exprs):
-        src.append(f"@guppy\ndef f{i}() -> None:\n    use_{kind}({ex})\n")
+        if kind == "s":      # a statement over two borrowed arrays
+            src.append(f"@guppy\ndef f{i}(xs: array[int, 3], m: array[array[int, 3], 2]) -> None:\n    {ex}\n")
+        else:
+            src.append(f"@guppy\ndef f{i}() -> None:\n    use_{kind}({ex})\n")
     d = tempfile.mkdtemp(dir=os.environ.get("TMPDIR", "/var/tmp")); fn = os.path.join(d, "c05_progs.py")
     open(fn, "w").write("\n".join(src))
     spec = importlib.util.spec_from_file_location("c05_progs", fn); m = importlib.util.module_from_spec(spec); sys.modules["c05_progs"] = m
@@ -233,7 +241,12 @@ def judge(kind, ex, res, i):
     # calls to library functions (e.g. int.__pow__) are not the side effects being tracked
     strip = lambda t: tuple(x for x in t if x == "add3" or (len(x) == 2 and x[0] in "bnsp" and x[1].isdigit()))
     got = {strip(t) for t in got}
-    want = py_traces(ex)
+    want = py_traces(ex, stmt=(kind == "s"))
+    if kind == "s":
+        # statements (augmented / subscript assignments): no recorded deviation applies
+        if got != want:
+            return f"call sequences differ from Python's evaluation traces: HUGR-only {sorted(got - want)[:3]}, Python-only {sorted(want - got)[:3]}"
+        return None
     if model_traces(ex, False, False) != want:
         raise AssertionError("oracle self-check failed for " + ex)
     if got != want:
@@ -288,6 +301,9 @@ def exprs(tier):
             "p0()(n0())", "p1()(n0(), n1())", "p0()(n0()) + n1()", "add3(n0(), p0()(n1()), n2())", "n0() + p1()(n1(), n2())",
             "array(n0(), n1())[n2()] + n3()", "(n0(), n1())[0] + n2()", "n0() + array(n1(), n2())[0]"]
     out += [("n", e) for e in ints]
+    # statements: an index expression is evaluated once, container/index before the right-hand side
+    out += [("s", e) for e in ["xs[n0()] += n1()", "xs[n0()] = n1()", "m[n0()][n1()] += n2()", "xs[n0()] -= xs[n1()]", "xs[n0() + n1()] *= 2", "m[n0()][1] += add3(n1(), n2(), n3())",
+                               "xs[1] += n0()", "xs[n0()] += 1 if b0() else 2"]]
     out += [("b", e) for e in ["n0() + n1() < n2() * n3()", "b0() and n0() < n1() < n2()", "n0() < n1() < n2() or b0()", "not (n0() < n1() <= n2() < n3())",
                                "(n0() < n1()) == (n2() < n3())", "b0() if n0() < n1() < n2() else b1()", "n0() in array(n1(), n2())" ]]
     return out
@@ -325,5 +341,5 @@ I_ = INPUT
 r = compile_all([(I_["kind"], I_["expr"])])[0]
 msg = judge(I_["kind"], I_["expr"], r, 0)
 if msg is not None and msg.startswith("SKIP:"): msg = None
-print(json.dumps({"violates": msg is not None,"detail": msg, "expr": I_["expr"], "python_traces": sorted(py_traces(I_["expr"]))[:6]}))
+print(json.dumps({"violates": msg is not None,"detail": msg, "expr": I_["expr"], "python_traces": sorted(py_traces(I_["expr"], stmt=(I_["kind"] == "s")))[:6]}))
 '''
